@@ -60,6 +60,9 @@ type Op struct {
 	Wall    int64
 	Ty      byte
 	Rel     bool
+	// environment only (not part of the model): modification time of the file written by SF;
+	// 0 = the zero time, i.e. the same as every other file written without one
+	MTime int64
 }
 
 type GView struct {
@@ -191,6 +194,9 @@ func (o *Op) Desc() string {
 		c := string(o.Content)
 		if len(c) > 300 {
 			c = fmt.Sprintf("%s…(%d bytes)", c[:120], len(c))
+		}
+		if o.MTime != 0 {
+			return fmt.Sprintf("SetFile(%s,%s,mtime=%d)", o.User, q(c), o.MTime)
 		}
 		return "SetFile(" + o.User + "," + q(c) + ")"
 	case "EN":
@@ -339,7 +345,11 @@ func (w *World) Apply(o *Op) View {
 		case FDir:
 			w.FS[p] = &fstest.MapFile{Mode: fs.ModeDir | 0755}
 		case FFile:
-			w.FS[p] = &fstest.MapFile{Data: o.Content, Mode: 0600}
+			mf := &fstest.MapFile{Data: o.Content, Mode: 0600}
+			if o.MTime != 0 {
+				mf.ModTime = time.Unix(o.MTime, 0)
+			}
+			w.FS[p] = mf
 		}
 		return View{Kind: "N"}
 	case "EN":
